@@ -31,6 +31,37 @@ DIRECT_HANDLER_TABLE = {
 }
 
 
+# event deliveries (transitively, by callee name) that may sit inside a `try` whose handler can
+# catch EdzedCircuitError without re-raising: (function, handler type, callee name) -> reason
+SWALLOW_TABLE = {
+    ('addons:AddonPersistence.init_from_persistent_data', 'Exception', '_restore_state'):
+        "documented fall-back: a failed restore is logged and the next init source is used; a "
+        "refusal met on the way has already passed the refused chain's dispatchers",
+    ('simulator:Circuit._stop_sblocks', 'Exception', 'stop'):
+        "documented error isolation of stop() after the simulation has ended",
+    ('simulator:Circuit.run_forever', '(Exception, asyncio.CancelledError)', '*'):
+        "the designated sink: records the error that stops the simulation",
+}
+DELIVER0 = ('send', 'event', '_send_events', 'set_output', 'put')
+
+
+def _may_deliver(prog):
+    """Names of package functions that (transitively, resolved by callee name = an
+    over-approximation) deliver an event."""
+    names = set(DELIVER0)
+    funcs = list(prog.pkg_funcs(include_demo=False))
+    changed = True
+    while changed:
+        changed = False
+        for f in funcs:
+            if f.node.name in names:
+                continue
+            if any(isinstance(x, ast.Call) and call_name(x) in names for x in own_nodes(f.node)):
+                names.add(f.node.name)
+                changed = True
+    return names
+
+
 def run(ck):
     ck.explanation = (
         "SBlock.event (edzed/block.py): under the strongest fault model M2 (every call, subscript, "
@@ -62,6 +93,9 @@ def run(ck):
                  "directly only by the dispatcher and by four own-handler uses on self; event() "
                  "is overridden only by AddonPersistence, which calls super().event exactly once",
                  'M0', 8)
+    R7 = ck.rule('R11.7', "a refusal reaches a dispatcher: no call that (transitively) delivers an "
+                 "event sits in a `try` whose handler catches EdzedCircuitError without "
+                 "re-raising, except the three enumerated designated sinks", 'M0', 3)
     R6 = ck.rule('R11.6', "non-events neither lock nor stop: unknown-event errors are re-raised "
                  "without abort; FSM raises EdzedUnknownEvent before any effect", 'M0', 3)
 
@@ -78,6 +112,29 @@ def run(ck):
     a = acq[0]
     check_must_pass(ck, R1, f"{ev.fid} :: release on all exits", ev, g2, a, rel,
                     [g2.exit, g2.raise_exit], "release of the event guard")
+
+    # the guard is held while the handler runs: no release can be followed by the dispatch
+    disp = nodes_where(g2, lambda n: any(
+        (call_name(c) == '_event' and recv(c) == 'self') or
+        (isinstance(c.func, ast.Name) and c.func.id == 'handler') for c in node_calls(n)))
+    ck.need(R1, disp, "SBlock.event: the handler dispatch (handler(self, **data) / self._event) "
+            "was not recognised")
+    wit = None
+    for r in rel:
+        for d in disp:
+            if d.id in g2.reachable_from(r):
+                wit = g2.path_avoiding(r, [d], avoid=acq)
+                if wit is not None:
+                    break
+        if wit is not None:
+            break
+    ck.ob(R1, f"{ev.fid} :: guard held during the dispatch", wit is None,
+          "no `_event_active = False` can precede the handler call: the handler always runs with "
+          "the guard set (temporary lifts restore it)" if wit is None else
+          "the guard is cleared on a path that continues to the handler call: the handler runs "
+          "unguarded and a looped-back event is not refused", ev, (wit[0].ast if wit and wit[0].ast
+                                                                  is not None else ev.node),
+          witness=path_witness(g2, wit))
 
     # ------------------------------------------------------------------ R11.2
     refusal = nodes_where(g2, lambda n: isinstance(n.ast, ast.Raise)
@@ -267,3 +324,37 @@ def run(ck):
     if foreign:
         effect_free_to(ck, R6, f"{rep.fid} :: foreign type ignored", rep, gr, foreign, forb,
                        "Repeat ignores other event types without effect")
+
+    # ------------------------------------------------------------------ R11.7
+    from sa.cfg import handler_types
+    from sa.rulekit import handler_reraises
+    deliver = _may_deliver(prog)
+    ck.need(R7, {'_send_events', 'set_output', 'event', 'send'} <= deliver and '_restore_state' in deliver
+            and 'stop' in deliver, "may-deliver closure lost its known members")
+    n7 = 0
+    CATCHES = ('Exception', 'BaseException', 'EdzedError', 'EdzedCircuitError')
+    for fi in prog.pkg_funcs(include_demo=False):
+        for t in own_nodes(fi.node):
+            if not isinstance(t, ast.Try):
+                continue
+            for h in t.handlers:
+                if h.type is not None and not any(x in CATCHES for x in handler_types(h)):
+                    continue
+                if handler_reraises(fi, h):
+                    continue
+                names = {}
+                for st in t.body:
+                    for x in ast.walk(st):
+                        if isinstance(x, ast.Call) and call_name(x) in deliver:
+                            names.setdefault(call_name(x), x)
+                ht = norm(h.type) if h.type is not None else 'bare'
+                for nm, call in sorted(names.items()):
+                    n7 += 1
+                    ok = (fi.fid, ht, nm) in SWALLOW_TABLE or (fi.fid, ht, '*') in SWALLOW_TABLE
+                    ck.ob(R7, f"{fi.fid} :: except {ht} around {nm}()", ok,
+                          f"designated: {SWALLOW_TABLE.get((fi.fid, ht, nm)) or SWALLOW_TABLE.get((fi.fid, ht, '*'))}"
+                          if ok else
+                          f"`{norm1(call)}` may deliver an event inside a try whose `except {ht}` "
+                          f"does not re-raise: the EdzedCircuitError of a refused (looped-back) "
+                          f"event is swallowed here and never stops the simulation", fi, call)
+    ck.need(R7, n7 >= 3, f"only {n7} swallowing-handler/delivery pairs found (3 confirmed by hand)")
